@@ -11,7 +11,7 @@ RULE = ("random sample sets (SPIN/BINARY/INTEGER/DISCRETE/REAL; sample dtypes in
         "followed by 1-6 (thorough 1-14) operations from aggregate, slice/truncate (sorted_by None/energy/num_occurrences/extra vector, any "
         "start/stop/step), lowest (default and dyadic tolerances), filter (7 predicates), relabel_variables (fresh/swap/cycle/conflict/absent, "
         "in place or not), keep/drop_variables (list/set/iterator/Variables, bad and duplicate labels), append_variables (tuple/dict/SampleSet, "
-        "one row or all), change_vartype (with energy offsets, in place or not, impossible targets), concatenate (column-permuted, "
+        "one row or all, appended values beyond the range of the receiver's sample dtype and fractional values for REAL sets stored in int8/int16), change_vartype (with energy offsets, in place or not, impossible targets), concatenate (column-permuted, "
         "vartype-flipped, mismatched others), append_data_vectors, copy, first; the full record (values, energy, num_occurrences, row tag, "
         "extra vectors), labels, vartype and info after each operation are compared with the Coq model applied to the previous observed "
         "state (sorted slices and first relationally); deferred cases capture relabel/change_vartype on a concurrent.futures.Future-backed "
